@@ -332,6 +332,14 @@ impl World {
         tree_at_start: &model::RefTree,
         threshold_at_start: u32,
     ) -> Check {
+        // every observation of the canister's sync state goes into the run's log digest
+        self.log.write_str(&format!("{:?}{:?}", kind, after.stable_height));
+        for h in &after.hashes {
+            self.log.write(h);
+        }
+        self.log.write_str(&short_resp(&after.resp));
+        self.log.write_u64(after.deser_errs ^ (after.insert_errs << 20) ^ (after.rejects << 40));
+
         // ---- C13 (i)(ii): requests issued in this message ----
         let new_requests = canister::take_request_log();
         for r in &new_requests {
